@@ -132,5 +132,7 @@ def run(tier):
         check_behaviour(ck, conc, lambda t: mappyfile.loads(t, expand_includes=False), h, "public-loads", per_step=False)
     from .. import quoting
     quoting.run(ck, "C02", tier, impl.loader(expand_includes=True), impl.dumper)
+    from .. import numbers
+    numbers.run(ck, "C02", tier, impl.loader(expand_includes=True), None)
     return ck.finish(exhaustive=False, coverage_extra={
         "slot_probes": len(sl), "walks_per_step": len(hs), "walks_long": len(hl)})
